@@ -109,13 +109,15 @@ theorem update_applies_only_if {cfg : ZoneCfg} {buf : Bytes} {now : Nat} {rdok :
         simp only at he
         unfold authorizeUpdate at ha
         split at ha
-        · simp only [Outcome.ok.injEq] at ha; subst ha; simp [Auth.ok, REFUSED] at he
-        · rename_i hau
-          split at ha
-          · rename_i tsig hsig
-            obtain ⟨sg, hf, hv⟩ := authorizedTsig_ok ha he
-            refine ⟨by simpa using hau, req, tsig, sg, hreq, hd, hsig, hf, hv⟩
+        · simp only [Outcome.ok.injEq] at ha; subst ha; simp [Auth.ok, NOTIMP] at he
+        · split at ha
           · simp only [Outcome.ok.injEq] at ha; subst ha; simp [Auth.ok, REFUSED] at he
+          · rename_i hau
+            split at ha
+            · rename_i tsig hsig
+              obtain ⟨sg, hf, hv⟩ := authorizedTsig_ok ha he
+              refine ⟨by simpa using hau, req, tsig, sg, hreq, hd, hsig, hf, hv⟩
+            · simp only [Outcome.ok.injEq] at ha; subst ha; simp [Auth.ok, REFUSED] at he
       · simp at h
       · simp at h
     · split at h <;> first | (simp only [Outcome.ok.injEq, Option.some.injEq] at h; subst h; simp at hk) | simp at h
@@ -144,6 +146,9 @@ theorem axfr_signed_only {cfg : ZoneCfg} {buf : Bytes} {now : Nat} {rdok : Bool}
         simp only at he
         unfold authorizeAxfr at ha
         rw [hp] at ha
+        split at ha
+        · simp only [reduceCtorEq, ↓reduceIte, Outcome.ok.injEq] at ha
+          subst ha; simp [Auth.ok, REFUSED] at he
         simp only at ha
         split at ha
         · rename_i tsig hsig
@@ -152,6 +157,13 @@ theorem axfr_signed_only {cfg : ZoneCfg} {buf : Bytes} {now : Nat} {rdok : Bool}
         · simp only [Outcome.ok.injEq] at ha; subst ha; simp [Auth.ok, REFUSED] at he
       · simp at h
       · simp at h
+
+theorem authorizeAxfr_deny {cfg : ZoneCfg} (req : Req) (buf : Bytes) (now : Nat) (rdok : Bool)
+    (hp : cfg.axfr = .deny) :
+    authorizeAxfr cfg req buf now rdok = .ok { rcode := REFUSED, resp := none } := by
+  unfold authorizeAxfr
+  rw [hp]
+  cases cfg.inMemory <;> simp
 
 /-- Under the `Deny` policy no transfer ever returns zone data. -/
 theorem axfr_deny_never {cfg : ZoneCfg} {buf : Bytes} {now : Nat} {rdok : Bool}
@@ -164,10 +176,31 @@ theorem axfr_deny_never {cfg : ZoneCfg} {buf : Bytes} {now : Nat} {rdok : Bool}
   · split at h
     · simp only [Outcome.ok.injEq, Option.some.injEq] at h; subst h; simp at hk
     · split at h <;> first | (simp only [Outcome.ok.injEq, Option.some.injEq] at h; subst h; simp at hk) | simp at h
-    · unfold authorizeAxfr at h
-      rw [hp] at h
+    · rw [authorizeAxfr_deny _ _ _ _ hp] at h
       simp only [Outcome.ok.injEq, Option.some.injEq] at h
       subst h; simp [Auth.ok, REFUSED]
+
+/-- A zone served by the in-memory / file store (no TSIG processing) returns zone data for a
+transfer only under `AllowAll`, and never applies an update. -/
+theorem in_memory_store {cfg : ZoneCfg} {buf : Bytes} {now : Nat} {rdok : Bool}
+    {d : Decision} (h : serve cfg buf now rdok = .ok (some d)) (hm : cfg.inMemory = true)
+    (he : d.effect = true) : d.kind = .axfr ∧ cfg.axfr = .allowAll := by
+  unfold serve at h
+  split at h
+  · simp at h
+  · simp at h
+  · split at h
+    · simp only [Outcome.ok.injEq, Option.some.injEq] at h; subst h; simp at he
+    · unfold authorizeUpdate at h
+      simp only [hm, ↓reduceIte, Outcome.ok.injEq, Option.some.injEq] at h
+      subst h; simp [Auth.ok, NOTIMP] at he
+    · unfold authorizeAxfr at h
+      simp only [hm, ↓reduceIte] at h
+      by_cases hp : cfg.axfr = .allowAll
+      · simp only [hp, ↓reduceIte, Outcome.ok.injEq, Option.some.injEq] at h; subst h
+        exact ⟨rfl, hp⟩
+      · simp only [hp, ↓reduceIte, Outcome.ok.injEq, Option.some.injEq] at h; subst h
+        simp [Auth.ok, REFUSED] at he
 
 /-- A request that is neither an UPDATE nor an AXFR for the zone has no guarded effect. -/
 theorem other_no_effect {cfg : ZoneCfg} {buf : Bytes} {now : Nat} {rdok : Bool}
